@@ -19,6 +19,13 @@ Theorem C15_masks_correct :
 Proof. exact masks_correct. Qed.
 Print Assumptions C15_masks_correct.
 
+(* A range x-y inside a set denotes exactly the bytes c with x <= c <= y;
+   a reversed range (x > y) denotes the empty set, as in reference Lua. *)
+Theorem C15_range_spec :
+  forall a b c, 0 <= a -> 0 <= b -> 0 <= c -> bs_mem (bs_range a b) c = (a <=? c) && (c <=? b).
+Proof. exact bs_range_spec. Qed.
+Print Assumptions C15_range_spec.
+
 (* machine_equiv_spec, PARTIAL: for every item list made of single-class items
    with any repetition suffix (none * + - ?) and (position) captures — no
    back-references, no %b, no %f —, every subject, start position, end-anchor
@@ -234,12 +241,24 @@ Theorem C15_gsub_iteration_progress :
 Proof. exact gsub_iteration_progress. Qed.
 Print Assumptions C15_gsub_iteration_progress.
 
+(* gsub's 4th argument: a non-positive maximum means no replacement at all — in
+   the specification and in the model of matching.go (negative n clamped to 0) *)
+Theorem C15_gsub_s_nonpositive :
+  forall p s repl n, n <= 0 -> gsub_s p s repl (Some n) = DVals [CStr s; CPos 0].
+Proof. exact gsub_s_nonpositive. Qed.
+Print Assumptions C15_gsub_s_nonpositive.
+
+Theorem C15_gsub_im_nonpositive :
+  forall p f s B repl n, n <= 0 -> gsub_im p f s B repl (Some n) = (DVals [CStr s; CPos 0], false).
+Proof. exact gsub_im_nonpositive. Qed.
+Print Assumptions C15_gsub_im_nonpositive.
+
 (* ---- refuted on the code as it stands (faithful IM; witness replayed on Go) *)
 
 (* gsub of matching.go counts an empty match that it skips (pinned by the suite) *)
 Theorem C15_gsub_count_refuted :
   exists ptn s repl p, build ptn = Ok p /\
-    fst (gsub_im p 1000 s 0 repl (-1)) = DVals [CStr [120]; CPos 2] /\
-    gsub_s p s repl (-1) = DVals [CStr [120]; CPos 1].
+    fst (gsub_im p 1000 s 0 repl None) = DVals [CStr [120]; CPos 2] /\
+    gsub_s p s repl None = DVals [CStr [120]; CPos 1].
 Proof. exact gsub_count_refuted. Qed.
 Print Assumptions C15_gsub_count_refuted.
